@@ -62,6 +62,33 @@ def run(pid, tier, seed, replay=None):
             sf, nmsg = subcomm.explore(seed_, tier_)
             fails += sf
             state['subcomm_messages'] = state.get('subcomm_messages', 0) + nmsg
+            # function objects with state of every size (1, 4, 8, 12, 13, 24 bytes) and mixed arguments: "with arguments equal to those passed"
+            from . import c06
+            nfm, ff = c06.comm_runs(seed_, tier_)
+            fails += [dict(f, kind='functor', scenario=f.get('config', '')) for f in ff]
+            state['stateful_functor_messages'] = state.get('stateful_functor_messages', 0) + nfm
+        if pid == 'C08':
+            # masks taken and released inside handlers (user handlers, map visits) with further buffers already waiting
+            exe, err = compile_sim('maskhandler', ['harness/maskhandler.cpp'])
+            if exe is None:
+                fails.append({'what': 'maskhandler harness does not compile against the current headers', 'log': (err or '')[-1200:]})
+            else:
+                cfgs = [(3, 3, 'uniform', 16384, 'NONE'), (4, 2, 'early', 1, 'NLNR'), (2, 1, 'late', 0, 'NR')]
+                if tier_ != 'quick':
+                    cfgs += [(n, p, pol, kb, rt) for (n, p) in ((5, 5), (6, 2), (8, 4)) for pol in ('uniform', 'starve') for kb, rt in ((16384, 'NONE'), (1, 'NR'))]
+                for i, (nr, ppn, pol, kb, rt) in enumerate(cfgs):
+                    r = simrun(exe, nr, [6], ppn=ppn, seed=seed_ * 17 + i, policy=pol, wall=60, env={'YGM_COMM_BUFFER_SIZE_KB': kb, 'YGM_COMM_ROUTING': rt})
+                    rows = [l.split() for l in r['out'] if l.startswith('MH ')]
+                    cfgt = '%d ranks, %d per node, %s, %d KB' % (nr, ppn, rt, kb)
+                    if r['verdict'] != 'ok' or len(rows) != nr:
+                        fails.append({'what': 'handlers that take a mask (%s): run ended with %s %s' % (cfgt, r['verdict'], r['detail']), 'cmd': r['cmd'], 'kind': 'maskhandler', 'config': cfgt, 'scenario': 'maskhandler 6'})
+                        continue
+                    state['mask_in_handler_executions'] = state.get('mask_in_handler_executions', 0) + sum(int(t[4]) for t in rows)
+                    for t in rows:
+                        if int(t[2]) or int(t[3]):
+                            fails.append({'what': 'rank %s (%s): %s handler(s) started while another handler was running (a mask was released inside it) and %s by-reference argument(s) arrived changed' % (t[1], cfgt, t[2], t[3]),
+                                          'cmd': r['cmd'], 'kind': 'maskhandler', 'config': cfgt, 'scenario': 'maskhandler 6'})
+                            break
         if pid == 'C02':
             # the implicit barrier in the destructor of every container kind
             from . import dtor
